@@ -17,9 +17,10 @@ def config_key_exists(section, key):
                      or key.endswith("polygon points"))):
             # "online_filter:area_um,deform soft limit"
             # "online_filter:area_um,deform polygon points"
-            f1, f2 = key.split(" ", 1)[0].split(",")
-            valid = (feat_logic.scalar_feature_exists(f1)
-                     and feat_logic.scalar_feature_exists(f2))
+            feats = key.split(" ", 1)[0].split(",")
+            valid = (len(feats) == 2
+                     and feat_logic.scalar_feature_exists(feats[0])
+                     and feat_logic.scalar_feature_exists(feats[1]))
         else:
             feat = key.split(" ", 1)[0]
             valid = feat_logic.scalar_feature_exists(feat)
